@@ -1,3 +1,4 @@
+#include <cmath>
 #include <symengine/printers/codegen.h>
 #include <symengine/constants.h>
 #include <symengine/mul.h>
@@ -387,6 +388,15 @@ void CodePrinter::bvisit(const Function &x)
 
 void CodePrinter::bvisit(const RealDouble &x)
 {
+    // non-finite values have no literal: print them like the symbolic objects
+    if (std::isnan(x.i)) {
+        str_ = apply(*Nan);
+        return;
+    }
+    if (std::isinf(x.i)) {
+        str_ = apply(x.i > 0 ? *Inf : *NegInf);
+        return;
+    }
     if (precision_ != CodePrinterPrecision::Double) {
         str_ = print_scalar_literal(x.i);
     } else {
